@@ -815,3 +815,8 @@ CORPUS += [
 CORPUS += [
     V("C12", "pomo-regroup-multistart-factor-first", "rl4co/models/zoo/pomo/model.py", "(n_aug, n_start)", "(n_start, n_aug)", "C12.b", count=99),
 ]
+
+CORPUS += [
+    V("C10", "top-p-most-likely-not-kept-explicitly", DECP, "    sorted_indices_to_remove[..., -1] = False\n", "", "C10.b"),
+    V("C10", "top-p-keeps-first-instead-of-last", DECP, "    sorted_indices_to_remove[..., -1] = False\n", "    sorted_indices_to_remove[..., 0] = False\n", "C10.b"),
+]
